@@ -22,6 +22,15 @@ extern bool g_returned;   /* the parser step executed `return data;` */
 #define PDS_IS_MASK_BYTE(c) ((uint8_t)(c) == 0xFF || (uint8_t)(c) == 0x00)
 #define PDS_MASK_BYTE(enabled) ((enabled) ? 0xFF : 0x00)
 
+/* a bool object holds 0 or 1 (ISO C 6.2.5); the verifier's havoc does not know that */
+#define PDS_B01(b) ((b) == 0 || (b) == 1)
+/* loop assigns of the skeleton: the mask string only when one was passed */
+#ifdef MASK_NULL
+#define PDS_LOOP_MASK_ASSIGNS
+#else
+#define PDS_LOOP_MASK_ASSIGNS , mask->size, mask->nw, __CPROVER_object_upto(mask->w, C09_WIN)
+#endif
+
 /* texts up to 4 GiB (assumption; cbmc flags pointer arithmetic beyond 2^39 on fresh objects of symbolic size) */
 #define PDS_MAXTEXT 0xFFFFFFFFull
 
